@@ -87,6 +87,47 @@ Definition c05_rule2_okb (D : Z) (r : c05_rule2) (deg : nat) : bool :=
                        (0 <=? x) && (0 <=? y) && (x + y <=? D)) (fst r)
   && c05_rule2_exactb D r deg.
 
+(* ---- the same certificates computed with shared power tables (x^0 .. x^deg per point, D^0 ..
+   D^(deg+1)): an order of magnitude fewer big multiplications, so that the independent checker
+   coqchk (which has no bytecode VM) can re-check the table theorems too.  Proofs/C05_tables_proofs.v
+   shows these equal the direct definitions above. ---- *)
+Fixpoint c05_pows_from (x acc : Z) (n : nat) : list Z :=
+  match n with
+  | O => [acc]
+  | S k => acc :: c05_pows_from x (acc * x) k
+  end.
+Definition c05_pows (x : Z) (n : nat) : list Z := c05_pows_from x 1 n.
+
+Definition c05_rule1_exactb_fast (D : Z) (r : c05_rule1) (deg : nat) : bool :=
+  let tabs := map (fun gw => (snd gw, c05_pows (fst gw) deg)) (combine (fst r) (snd r)) in
+  let dp := c05_pows D (S deg) in
+  forallb (fun k => c05_closeb (c05_sumZ (map (fun t => fst t * nth k (snd t) 0) tabs))
+                               (nth (S k) dp 0) 1 (Z.of_nat (S k)))
+          (seq 0 (S deg)).
+
+Definition c05_rule1_okb_fast (D : Z) (r : c05_rule1) (deg : nat) : bool :=
+  Nat.eqb (length (fst r)) (length (snd r))
+  && forallb (fun w => 0 <? w) (snd r)
+  && forallb (fun g => (0 <=? g) && (g <=? D)) (fst r)
+  && c05_rule1_exactb_fast D r deg.
+
+Definition c05_rule2_exactb_fast (D : Z) (r : c05_rule2) (deg : nat) : bool :=
+  let tabs := map (fun pw => (snd pw, (c05_pows (fst (fst (fst pw))) deg, c05_pows (snd (fst (fst pw))) deg)))
+                  (combine (fst r) (snd r)) in
+  let dp := c05_pows D (S deg) in
+  forallb (fun ab => let a := fst ab in let b := snd ab in
+             c05_closeb (c05_sumZ (map (fun t => fst t * nth a (fst (snd t)) 0 * nth b (snd (snd t)) 0) tabs))
+                        (nth (S (a + b)) dp 0)
+                        (2 * c05_fact a * c05_fact b) (c05_fact (a + b + 2)))
+          (c05_monomials deg).
+
+Definition c05_rule2_okb_fast (D : Z) (r : c05_rule2) (deg : nat) : bool :=
+  Nat.eqb (length (fst r)) (length (snd r))
+  && forallb (fun w => 0 <? w) (snd r)
+  && forallb (fun p => let x := fst (fst p) in let y := snd (fst p) in
+                       (0 <=? x) && (0 <=? y) && (x + y <=? D)) (fst r)
+  && c05_rule2_exactb_fast D r deg.
+
 (* nominal degrees: n-point Gauss-Legendre 2n-1; the 9-point table is Gauss-Lobatto (2n-3);
    the triangle rules carry their order *)
 Definition c05_gauss_degree (n : Z) : nat :=
@@ -104,3 +145,14 @@ Definition c05_tri_okb (n : Z) : bool :=
   | None => false
   end.
 
+
+Definition c05_gauss_okb_fast (n : Z) : bool :=
+  match c05_gauss_rule n with
+  | Some r => c05_rule1_okb_fast c05_gden r (c05_gauss_degree n)
+  | None => false
+  end.
+Definition c05_tri_okb_fast (n : Z) : bool :=
+  match c05_tri_rule n with
+  | Some r => c05_rule2_okb_fast c05_den r (c05_tri_degree n)
+  | None => false
+  end.
